@@ -508,6 +508,8 @@ class MessageManager(interfaces.TokenInterface, interfaces.MessageManager):
         ExchangeMonitor can be passed in, which will receive the appropriate
         callbacks."""
 
+        piggybacked = None
+
         if message.mid is not None:
             # if you can give any reason why the application should provide a
             # fixed mid, lower the log level on demand and provide the reason
@@ -525,8 +527,12 @@ class MessageManager(interfaces.TokenInterface, interfaces.MessageManager):
 
             piggyback_key = (message.remote, message.token)
             if piggyback_key in self._piggyback_opportunities:
-                mid, handle = self._piggyback_opportunities.pop(piggyback_key)
-                handle.cancel()
+                # The opportunity is only used up when the message has
+                # actually left (see below): if it can not be sent, the error
+                # response standing in for it still needs it to acknowledge
+                # the request.
+                piggybacked = piggyback_key
+                mid, _ = self._piggyback_opportunities[piggyback_key]
 
                 if no_response:
                     new_message = Message(code=EMPTY, mid=mid, mtype=ACK)
@@ -593,6 +599,10 @@ class MessageManager(interfaces.TokenInterface, interfaces.MessageManager):
             self._backlogs[message.remote].append((message, messageerror_monitor))
         else:
             self._send_initially(message, messageerror_monitor)
+
+        if piggybacked is not None:
+            _, handle = self._piggyback_opportunities.pop(piggybacked)
+            handle.cancel()
 
     def _send_initially(self, message, messageerror_monitor=None):
         """Put the message on the wire for the first time, starting retransmission timeouts"""
